@@ -5,7 +5,21 @@
 (*   save      main called save_all(value of version v) on manager i; k = kind of the value: "ok", *)
 (*             "norepr" (holds something the YAML dumper cannot represent), "nocopy" (holds        *)
 (*             something copy.deepcopy cannot copy)                                                *)
-(*   shutdown  machine.thread_stopper.set()                                                        *)
+(*   shutdown  machine.thread_stopper.set() (stub machine of part 1)                               *)
+(*   stop      machine.stop() / the `quit` event on a booted machine (part 3)                      *)
+(*   dostop    MachineController._do_stop() was entered (called by the real _run_loop after a stop *)
+(*             request, or directly)                                                               *)
+(*   h         one more handler of the `shutdown` event (or of an event posted by such a handler)  *)
+(*             was called by the event manager; the lines up to the next h / stopped were executed *)
+(*             inside it                                                                           *)
+(*   stopped   _do_stop() has returned (shutdown() has set the stopper and stopped the machine)    *)
+(*   exit      the process has ended with exit code 0; `disk` is what its data files hold now      *)
+(* A trace with "free": true is the record of a real `mpf game` process (part 4: nothing patched,  *)
+(* real threads, real time): the steps of its writer threads are not observed - any number of      *)
+(* them may have happened between two lines - and `disk` is only known at the exit line.           *)
+(* When the stopper is set is NOT compared: what the statement is about is the data on disk once   *)
+(* the writers have ended, and that every writer step is one the model can take (a writer that     *)
+(* ends before the handlers are done is not).                                                      *)
 (*   w         writer i was released from scheduling point `pc` (fault "io": an OSError was raised *)
 (*             there, "exc": an exception of another class) and ran to its next point `npc`        *)
 (*   crash     the process died here: the data directory was copied and re-loaded by new managers; *)
@@ -19,7 +33,9 @@ VARIABLES tid, l, ended
 tvars == <<vars, tid, l, ended>>
 TL == TraceLines[tid].ev
 TInit == /\ tid \in 1..Len(TraceLines) /\ l = 1 /\ ended = FALSE /\ Init
+Free == "free" \in DOMAIN TraceLines[tid] /\ TraceLines[tid].free
 Disk(d) == \A i \in M : file'[i] = d[i]
+Obs(e) == IF Free THEN TRUE ELSE Disk(e.disk)
 \* the point the real thread reached.  On the shutdown-flush path the statement does not say whether the flag is
 \* cleared / a fresh copy is taken (the code does `FileManager.save(self.filename, copy.deepcopy(self.data))`
 \* without a clear): there the model may still be one or two silent steps (see TNext) behind the logged point;
@@ -27,17 +43,26 @@ Disk(d) == \A i \in M : file'[i] = d[i]
 Npc(i, npc) == \/ pc'[i] = npc
                \/ fin'[i] /\ ((pc'[i] = "clearDirty" /\ npc \in {"copy", "saveOpen"}) \/ (pc'[i] = "copy" /\ npc = "saveOpen"))
 Step(e) ==
-    \/ e.op = "save" /\ SaveAll(e.i, e.k) /\ data'[e.i] = e.v /\ Disk(e.disk) /\ UNCHANGED ended
+    \/ e.op = "save" /\ SaveAll(e.i, e.k) /\ data'[e.i] = e.v /\ Obs(e) /\ UNCHANGED ended
     \/ e.op = "shutdown" /\ Shutdown /\ Disk(e.disk) /\ UNCHANGED ended
+    \/ e.op = "stop" /\ StopRequested /\ Obs(e) /\ UNCHANGED ended
+    \/ e.op = "dostop" /\ DoStop /\ Obs(e) /\ UNCHANGED ended
+    \/ e.op = "h" /\ Handler /\ Obs(e) /\ UNCHANGED ended
+    \/ e.op = "stopped" /\ StopperSet /\ Obs(e) /\ UNCHANGED ended
     \/ e.op = "w" /\ pc[e.i] = e.pc /\ W(e.i, e.fault) /\ Npc(e.i, e.npc) /\ Disk(e.disk) /\ UNCHANGED ended
     \/ e.op = "crash" /\ Crash /\ (\A i \in M : file[i] = e.loaded[i]) /\ UNCHANGED ended
     \/ e.op = "unwedge" /\ ForceRelease /\ UNCHANGED ended
+    \/ e.op = "exit" /\ ProcessExit /\ (\A i \in M : file[i] = e.disk[i]) /\ ended' = TRUE
     \/ e.op = "end" /\ (\A i \in M : e.exited[i] = (pc[i] = "exited")) /\ (\A i \in M : file[i] = e.disk[i])
                     /\ ended' = TRUE /\ UNCHANGED vars
 TNext == \/ l <= Len(TL) /\ Step(TL[l]) /\ l' = l + 1 /\ UNCHANGED tid
          \* the statement does not say whether the shutdown flush clears the flag / takes a fresh copy:
          \* on that path these two steps may be absent from the real thread
          \/ \E i \in M : fin[i] /\ (ClearDirty(i) \/ Copy(i, "none")) /\ UNCHANGED <<tid, l, ended>>
+         \* a real process: unobserved steps of the writer threads
+         \/ Free /\ (\E i \in M : W(i, "none")) /\ UNCHANGED <<tid, l, ended>>
+         \* second pass only (never enabled with Deviations = {}): the stopper was set before the handlers were done
+         \/ EarlyStopper /\ UNCHANGED <<tid, l, ended>>
 TSpec == TInit /\ [][TNext]_tvars
 Reporter == TraceReport(tid, l, Len(TL))
 \* monitors (first pass, Deviations = {})
